@@ -98,6 +98,30 @@ def one_case(rec, tap, rng, cid):
         kw["segment"] = ["approach", "retract"][seg]
     case = {"id": cid, "spec": spec, "method": method, "segment": seg,
             "weight_cp": wcp, "init": {k: p0[k].value for k in p0}}
+    if rng.random() < .25:
+        # the curve object was fitted before with a slightly or clearly
+        # different value of a parameter that is held fixed (e.g. the nominal
+        # instead of the calibrated tip radius): the judged fit below still
+        # has to recover the generating values
+        fixed = [k for k in p0 if not p0[k].vary and p0[k].value > 0
+                 and k not in ("nu", "nu_S", "nu_L")]
+        if fixed:
+            import copy
+            k = fixed[int(rng.integers(len(fixed)))]
+            pp = copy.deepcopy(p0)
+            if rng.random() < .5:
+                pp[k].value = pp[k].value + float(
+                    rng.choice([-1, 1]) * rng.uniform(.2, 1) * 1e-8)
+                if pp[k].value <= 0:
+                    pp[k].value = p0[k].value + 1e-8
+            else:
+                pp[k].value = pp[k].value * float(rng.uniform(1.05, 1.5))
+            case["fitted before with"] = {k: pp[k].value}
+            rec.event("curves fitted before with another fixed parameter")
+            try:
+                idnt.fit_model(**dict(kw, params_initial=pp))
+            except BaseException:  # noqa
+                pass
     tap.clear()
     try:
         idnt.fit_model(**kw)
